@@ -1,0 +1,32 @@
+//go:build verif
+
+package minter
+
+import (
+	"math/big"
+
+	"github.com/MinterTeam/minter-go-node/coreV2/state"
+	validators2 "github.com/MinterTeam/minter-go-node/coreV2/state/validators"
+	"github.com/MinterTeam/minter-go-node/coreV2/types"
+)
+
+// Verification hooks for the governance tallies (build tag `verif`). They only observe: each call works on a throw-away
+// Blockchain value that carries nothing but the fields the tally functions read.
+
+// VerifCalculatePowers runs calculatePowers on the given validators with the given presence statuses
+// (ValidatorPresent / ValidatorAbsent per Tendermint address) and returns the power table and the total.
+func VerifCalculatePowers(vals []*validators2.Validator, statuses map[types.TmAddress]int8) (map[types.Pubkey]*big.Int, *big.Int) {
+	b := &Blockchain{validatorsStatuses: statuses}
+	b.calculatePowers(vals)
+	return b.validatorsPowers, b.totalPower
+}
+
+// VerifTallies evaluates the three governance decisions (halt at BeginBlock, commission and version at EndBlock)
+// for `height` on the votes stored in `st`, with an explicit power table.
+func VerifTallies(st *state.State, powers map[types.Pubkey]*big.Int, total *big.Int, height uint64) (halt bool, prices []byte, version string, versionOk bool) {
+	b := &Blockchain{stateDeliver: st, validatorsPowers: powers, totalPower: total}
+	halt = b.isApplicationHalted(height)
+	prices = b.isUpdateCommissionsBlockV2(height)
+	version, versionOk = b.isUpdateNetworkBlockV2(height)
+	return
+}
